@@ -1,0 +1,112 @@
+//go:build verif
+
+package proxy
+
+import (
+	"context"
+	"net"
+	"sync/atomic"
+	"time"
+
+	"github.com/fabiolb/fabio/config"
+	"github.com/fabiolb/fabio/metrics"
+	"github.com/fabiolb/fabio/route"
+
+	grpc_proxy "github.com/mwitkow/grpc-proxy/proxy"
+	"google.golang.org/grpc"
+	"google.golang.org/grpc/credentials/insecure"
+	"google.golang.org/grpc/health"
+	healthpb "google.golang.org/grpc/health/grpc_health_v1"
+	"google.golang.org/grpc/metadata"
+	"google.golang.org/grpc/stats"
+	"google.golang.org/grpc/status"
+)
+
+// Verification hooks for property C12 (build tag verif): a gRPC listener wired exactly like main.newGrpcProxy
+// (interceptor + transparent handler + director), a counting gRPC upstream (the standard health service) and
+// a client call, so that the harness in /verif can drive the real gRPC proxy path without importing grpc
+// itself. No behaviour is changed.
+
+type verifC12Counter struct{ n *atomic.Int64 }
+
+func (c verifC12Counter) TagRPC(ctx context.Context, _ *stats.RPCTagInfo) context.Context { return ctx }
+func (c verifC12Counter) HandleRPC(context.Context, stats.RPCStats)                       {}
+func (c verifC12Counter) TagConn(ctx context.Context, _ *stats.ConnTagInfo) context.Context {
+	return ctx
+}
+func (c verifC12Counter) HandleConn(_ context.Context, s stats.ConnStats) {
+	if _, ok := s.(*stats.ConnBegin); ok {
+		c.n.Add(1)
+	}
+}
+
+// VerifC12GRPCUpstream starts a health-service gRPC server on loopback which adds 1 to hits for every
+// connection it accepts and for every call it serves. It returns the listen address.
+func VerifC12GRPCUpstream(hits *atomic.Int64) (string, error) {
+	l, err := net.Listen("tcp", "127.0.0.1:0")
+	if err != nil {
+		return "", err
+	}
+	srv := grpc.NewServer(grpc.StatsHandler(verifC12Counter{hits}),
+		grpc.UnaryInterceptor(func(ctx context.Context, req interface{}, _ *grpc.UnaryServerInfo, h grpc.UnaryHandler) (interface{}, error) {
+			hits.Add(1)
+			return h(ctx, req)
+		}))
+	healthpb.RegisterHealthServer(srv, health.NewServer())
+	go srv.Serve(l)
+	return l.Addr().String(), nil
+}
+
+// VerifC12GRPCProxy starts a gRPC proxy listener with the server options of main.newGrpcProxy (routes come
+// from route.GetTable()). It returns the listen address.
+func VerifC12GRPCProxy() (string, error) {
+	cfg := &config.Config{}
+	cfg.Proxy.Strategy = "rnd"
+	cfg.Proxy.Matcher = "prefix"
+	cfg.Proxy.GRPCMaxRxMsgSize = 4 << 20
+	cfg.Proxy.GRPCMaxTxMsgSize = 4 << 20
+	cfg.Proxy.GRPCGShutdownTimeout = time.Second
+	dp := metrics.DiscardProvider{}
+	sh := &GrpcStatsHandler{
+		Connect: dp.NewCounter("c"), Request: dp.NewHistogram("r"), NoRoute: dp.NewCounter("n"), Status: dp.NewHistogram("s"),
+	}
+	pi := GrpcProxyInterceptor{Config: cfg, StatsHandler: sh, GlobCache: route.NewGlobCache(16)}
+	handler := grpc_proxy.TransparentHandler(GetGRPCDirector(nil, cfg))
+	srv := grpc.NewServer(
+		grpc.CustomCodec(grpc_proxy.Codec()),
+		grpc.UnknownServiceHandler(handler),
+		grpc.StreamInterceptor(pi.Stream),
+		grpc.StatsHandler(sh),
+		grpc.MaxRecvMsgSize(cfg.Proxy.GRPCMaxRxMsgSize),
+		grpc.MaxSendMsgSize(cfg.Proxy.GRPCMaxTxMsgSize),
+	)
+	l, err := net.Listen("tcp", "127.0.0.1:0")
+	if err != nil {
+		return "", err
+	}
+	go srv.Serve(l)
+	return l.Addr().String(), nil
+}
+
+// VerifC12GRPCCall makes one health Check call through addr with the given metadata and returns the gRPC
+// status code name ("OK", "NotFound", "PermissionDenied", …) and the client's local address.
+func VerifC12GRPCCall(addr string, md map[string]string) (code string, peer string, err error) {
+	var local string
+	conn, err := grpc.NewClient("passthrough:///"+addr, grpc.WithTransportCredentials(insecure.NewCredentials()),
+		grpc.WithContextDialer(func(ctx context.Context, a string) (net.Conn, error) {
+			c, err := (&net.Dialer{}).DialContext(ctx, "tcp", a)
+			if err == nil {
+				local = c.LocalAddr().String()
+			}
+			return c, err
+		}))
+	if err != nil {
+		return "", "", err
+	}
+	defer conn.Close()
+	ctx, cancel := context.WithTimeout(context.Background(), 5*time.Second)
+	defer cancel()
+	ctx = metadata.NewOutgoingContext(ctx, metadata.New(md))
+	_, cerr := healthpb.NewHealthClient(conn).Check(ctx, &healthpb.HealthCheckRequest{})
+	return status.Code(cerr).String(), local, nil
+}
